@@ -914,6 +914,16 @@ fn gen(prop: &str, tier: &str, seed: u64) -> Vec<String> {
             }
         }
     }
+    if want("C03") {
+        // part chains written by the library's split writer with many part sizes (entries whose data run spans
+        // three and more parts; parts that hold only continuation data): stream and slice part chaining agree
+        for room in [28usize, 33, 40, 47, 60, 75, 90, 120, 160, 250] {
+            let set = match guard(move || sample_parts_api(room)) { Ok(s) => s, Err(()) => continue }; // room below the largest indivisible chunk
+            let all = set.iter().map(|p| hex(p)).collect::<Vec<_>>().join(",");
+            v.push(format!("parts\tstream\t{}", all));
+            v.push(format!("parts\tslice\t{}", all));
+        }
+    }
     if want("C07") || want("C03") {
         let n = if thorough { 30000 } else { 1500 };
         for i in 0..n {
